@@ -653,7 +653,8 @@ def run_program(cx, group, program):
             raise EvalError("write", e)
     except Violation as v:
         if v.kind in ("crlf-newline-dropped", "crlf-rewritten-to-lf", "noncanonical-text-rewritten"):
-            return "passthrough:%s:%s" % (v.kind, fam), v.message
+            # bed / bed6 / narrowPeak / vcf share DelimitedBuffer._get_buffer_extractor
+            return "passthrough:%s:%s" % (v.kind, "delimited" if fam == "vcf" else fam), v.message
         return "%s:%s:%s:%s" % (group, v.kind, fam, cx.eol), v.message
     except EvalError as e:
         tname = type(e.exc).__name__
